@@ -169,6 +169,11 @@ def mon_c11(rec):
             runs = c.get("extra", "").split("|") if c.get("extra") else []
             if sorted(runs) != expected_runs(n):
                 out.append("Iter tag %d (n=%d): the caller's function ran with %s, expected %s" % (c["tag"], n, sorted(runs)[:6], expected_runs(n)[:6]))
+        elif c["m"] == "CbFirstUnencodable":
+            if c["err"] == "":
+                out.append("a call with an unencodable argument returned a nil error")
+            if c.get("extra") != "0":
+                out.append("after a call failed to encode a later argument, %s closure registration(s) of its earlier argument remain" % c.get("extra"))
         elif c["m"] == "LateInvoke":
             if c["err"] != "closure does not exist" or c.get("extra") != "false":
                 out.append("late invocation of a closure after its call returned: error %r, function ran=%s" % (c["err"], c.get("extra")))
@@ -362,7 +367,10 @@ def transcript(rec):
     """normalised transcript for C08: ids erased, per-call lines sorted"""
     lines = []
     for c in rec["calls"] or []:
-        lines.append("%s|%d|%s|%s|%s|%s|%s" % (c["m"], c["tag"], c["from"], c["oracle"] if rec["family"] == "values" else c["arg"], c["ret"], c["err"], c.get("extra", "") if rec["family"] != "values" else ""))
+        err = c["err"]
+        if c["m"] == "CbFirstUnencodable" and err:
+            err = "<the serializer's own error for an unencodable value>"
+        lines.append("%s|%d|%s|%s|%s|%s|%s" % (c["m"], c["tag"], c["from"], c["oracle"] if rec["family"] == "values" else c["arg"], c["ret"], err, c.get("extra", "") if rec["family"] != "values" else ""))
     evs = collections.Counter()
     for e in rec.get("events") or []:
         if e["kind"] == "inv":
@@ -408,6 +416,18 @@ def check_c08(res, tier, seed, wd, binary):
                 evd = {k: (a[1].get(k), b[1].get(k)) for k in set(a[1]) | set(b[1]) if a[1].get(k) != b[1].get(k)}
                 res.violation("config-diff:" + fam, "workload %s/seed %d behaves differently under %s and %s: %s %s %s" % (fam, sd, ref[0], r["config"], diff, dict(list(evd.items())[:3]), (a[2], b[2])),
                               dict(kind="config", family=fam, seed=sd, configs=[ref[0], r["config"]], differing_lines=diff, differing_events=evd, link_errors=[a[2], b[2]]))
+    # a burst of requests followed by the peer's disappearance: everything received is dispatched, under both APIs
+    brecs, brc, bout = C.run_job(binary, wd, "bursteof", dict(family="sys", seed=seed, n=(12 if tier == "quick" else 200), cases=["bursteof"]), timeout=300)
+    for r in brecs:
+        for c in r.get("calls") or []:
+            if c["m"] == "BurstThenEOF" and c["ret"] != c["arg"]:
+                hits += 1
+                res.violation("bursteof:" + r["config"], "under %s only %s of %s requests that arrived before the peer disappeared were handled (the other link API handles all of them)" % (r["config"], c["ret"], c["arg"]),
+                              dict(kind="bursteof", config=r["config"], seed=r["seed"], link_error=r.get("linkA")))
+        for n in r.get("notes") or []:
+            hits += 1
+            res.violation("bursteof-note", "%s: %s" % (r["config"], n), dict(kind="bursteof", seed=r["seed"]))
+    recs += brecs
     return recs, hits, dict(configurations=sorted(nconf), workloads=len(groups))
 
 
